@@ -8,15 +8,13 @@ package nfpm
 //@ import "github.com/goreleaser/nfpm/v2/files"
 //
 //@ spec func SpecPlanOK(cs files.Contents, mtimeSet bool) bool {
-//@     return forall(0, len(cs), func(i int) bool {
-//@         return cs[i] != nil && fresh(cs[i]) && allocated(cs[i]) &&
-//@             cs[i].FileInfo != nil && fresh(cs[i].FileInfo) && allocated(cs[i].FileInfo) &&
-//@             implies(mtimeSet, !cs[i].FileInfo.MTime.IsZero())
-//@     })
+//@     return files.SpecPlanSliceOK(cs, mtimeSet)
 //@ }
 //
 //@ func PrepareForPackager(info *Info, packager string) (err error)
 //@   requires info != nil
+//@   requires files.SpecContentsNonNil(info.Contents)
+//@   requires !flag("failed") && !flag("clockRead") && !flag("envRead")
 //@   ensures [C11 C12 C01] plan-fresh: implies(err == nil, SpecPlanOK(info.Contents, !old(info.MTime.IsZero())))
 //@   ensures [C06] loud: implies(err == nil, flag("failed") == old(flag("failed")))
 //@   ensures [C07] no-clock: implies(!old(info.MTime.IsZero()), flag("clockRead") == old(flag("clockRead")))
